@@ -35,8 +35,8 @@ Check C11_recover_lazy : forall S (c : cursor S) mk l i0 p, refines c mk l i0 ->
 Check C11_concat_children_only_need_recover : forall S (c : cursor S) ls kids, sorted (concat ls) -> ls <> [] -> Forall2 (fun s li => krec c s li) kids ls -> refines (concat_cursor c) (k_new c kids) (concat_spec ls) (-1).
 Check C11_errors_reported : forall e u prog, fubuild (fdepth e) (fsize e + 2) e = Some u -> (mu (fafter (fucur (fdepth e)) prog u) + count_err (frun (fucur (fdepth e)) prog u) = mu u)%nat.
 Check C11_errors_before_first : forall e u prog, wf (erase e) -> fubuild (fdepth e) (fsize e + 2) e = Some u -> fclean (fucur (fdepth e)) (spec_of (erase e)) prog u (-1).
-Check C11_after_error_outside_known : forall e u prog, wf (erase e) -> fubuild (fdepth e) (fsize e + 2) e = Some u -> fmatchh (fucur (fdepth e)) healthy (spec_of (erase e)) prog u (Some (-1)).
-Check C11_next_after_error_refuted : wf (erase exf_expr) /\ map (fun o => match o with FKV kv => kv | _ => None end) (tl (frun_model exf_expr exf_prog)) <> fnoop_ref (spec_of (erase exf_expr)) exf_prog (tl (frun_model exf_expr exf_prog)) (-1).
+Check C11_absolute_calls_recover_after_error : forall e u prog, wf (erase e) -> fubuild (fdepth e) (fsize e + 2) e = Some u -> fmatchh (fucur (fdepth e)) healthy (spec_of (erase e)) prog u (Some (-1)).
+Check C11_failed_call_is_not_a_noop : wf (erase exf_expr) /\ map (fun o => match o with FKV kv => kv | _ => None end) (tl (frun_model exf_expr exf_prog)) <> fnoop_ref (spec_of (erase exf_expr)) exf_prog (tl (frun_model exf_expr exf_prog)) (-1).
 Check C11_compaction_input : forall tabs prog, Forall sorted tabs -> distinct (concat tabs) -> run_model (compaction_input tabs) prog = run (ref (merge_spec tabs)) prog ref_new.
 Check C11_compaction_walk_reads_sorted_union : forall tabs n, Forall sorted tabs -> distinct (concat tabs) -> map fst (run_model (compaction_input tabs) (compaction_walk n)) = None :: map (fun k => ent (merge_spec tabs) (Z.min (Z.of_nat k - 1) (len (merge_spec tabs)))) (seq 0 (S n)).
 Check C11_gc_input : forall tabs prog, Forall sorted tabs -> distinct (concat tabs) -> run_model (compaction_input tabs) (gc_input_prefix ++ prog) = run (ref (merge_spec tabs)) (gc_input_prefix ++ prog) ref_new /\ skipn 2 (run (ref (merge_spec tabs)) (gc_input_prefix ++ prog) ref_new) = run (ref (merge_spec tabs)) prog (Z.min 0 (len (merge_spec tabs))).
